@@ -1,5 +1,4 @@
-import ImathVerif.Props.C07
-import ImathVerif.Props.C06
+import ImathVerif.Lemmas.C07LinkInst
 /-!
 # C07 ∘ C06 — `Matrix44::inverse (true)` throws ⇔ `inverse ()` reports failure, at FULL strength
 
@@ -12,10 +11,10 @@ direction of the failure equivalence (`M44_inverse_failure_partial`).
 tied to the real members bit for bit by the C06 correspondence harness) correct: the singular exit is taken iff
 `det M = 0`, otherwise the result is a two-sided inverse.
 
-Here the parameters are INSTANTIATED with that model (`gj`, `gjF`, `gjTs`, `gjTv` below; all four are read off the
-two model functions `M44.gjInverse`, `M44.gjInverseExc`, i.e. `gjCore` at `n = 4`), the two hypotheses become
-LEMMAS (`gj_hok`, `gj_herr`, and `gjF_eq` for the `(false)` copy), and the equivalence is proved in both directions
-(`M44_inverse_failure`).  The converse uses C06's determinant characterisation: on the Gauss-Jordan arm the
+Here the parameters are INSTANTIATED with that model (`gj`, `gjF`, `gjTs`, `gjTv` in `Lemmas/C07LinkInst.lean`; all four are
+read off the two model functions `M44.gjInverse`, `M44.gjInverseExc`, i.e. `gjCore` at `n = 4`); the two hypotheses become
+lemmas there (`gj_hok`, `gj_herr`, and `gjF_eq` for the `(false)` copy) — TRUE BY CONSTRUCTION, helper lemmas, not obligations
+of the property — and the equivalence is proved in both directions (`M44_inverse_failure`).  The converse uses C06's determinant characterisation: on the Gauss-Jordan arm the
 unchecked form returns the identity only when `det M = 0` (then the checked form throws) or when `M` is the
 identity (`gj_eq_one_imp`); on the affine arm the cofactor formula gives the identity only for the identity
 (`M44_affineInverse_one`).  Nothing is left `_partial`.
@@ -30,64 +29,12 @@ open ImathVerif ImathVerif.C07 Matrix
 
 variable {α : Type} [Field α] [LinearOrder α] [IsStrictOrderedRing α] [BEq α] [LawfulBEq α]
 
-/-! ## The instantiation: C07's four parameter functions read off C06's Gauss-Jordan model at `n = 4` -/
-
-/-- `gj44` := `Matrix44::gjInverse ()` (the `noexcept` body) -/
-def gj (a : M44 α) : M44 α := a.gjInverse
-/-- `gj44F` := `Matrix44::gjInverse (false)`: the `singExc` body with the flag off returns `Matrix44 ()` at its exits -/
-def gjF (a : M44 α) : M44 α :=
-  match a.gjInverseExc with
-  | .ok y => y
-  | .error _ => M44.identity
-/-- `gj44Tstatus` := 0 when `gjInverse (true)` returns, 1 when it throws (the extractor's encoding, sym_c07.cpp) -/
-def gjTs (a : M44 α) : α :=
-  match a.gjInverseExc with
-  | .ok _ => 0
-  | .error _ => 1
-/-- `gj44Tvalue` := the value `gjInverse (true)` returns; where it throws there is no value, and an ARBITRARY one
-(here the argument itself, deliberately not the identity) is used: nothing below depends on it -/
-def gjTv (a : M44 α) : M44 α :=
-  match a.gjInverseExc with
-  | .ok y => y
-  | .error _ => a
-
-theorem M44_one_eq_identity : M44.one α = (M44.identity : M44 α) := rfl
-
-/-- C06 in one statement: singular ⇒ throws / identity; non-singular ⇒ returns the value of the unchecked form -/
-theorem gjExc_cases (a : M44 α) :
-    (a.toMat.det = 0 ∧ a.gjInverseExc = .error Exc.invalidArgument ∧ a.gjInverse = M44.identity) ∨
-    (a.toMat.det ≠ 0 ∧ a.gjInverseExc = .ok a.gjInverse) := by
-  by_cases hd : a.toMat.det = 0
-  · exact Or.inl ⟨hd, (C06.M44_gjInverseExc_spec a).1 hd, C06.M44_gjInverse_singular a hd⟩
-  · exact Or.inr ⟨hd, (C06.M44_gjInverseExc_spec a).2 hd⟩
-
 /-- the status of `gjInverse (true)` is "returned" exactly for a non-singular matrix -/
 theorem gjTs_eq_zero_iff (a : M44 α) : gjTs a = 0 ↔ a.toMat.det ≠ 0 := by
   unfold gjTs
   rcases gjExc_cases a with ⟨hd, he, _⟩ | ⟨hd, he⟩
   · rw [he]; simp [hd]
   · rw [he]; simp [hd]
-
-/-- C07's hypothesis `hok`, now a lemma: when `gjInverse (true)` returns, it returns what `gjInverse ()` returns -/
-theorem gj_hok (a : M44 α) : gjTs a = 0 → gjTv a = gj a := by
-  unfold gjTs gjTv gj
-  rcases gjExc_cases a with ⟨_, he, _⟩ | ⟨_, he⟩
-  · rw [he]; simp
-  · rw [he]; simp
-
-/-- C07's hypothesis `herr`, now a lemma: when `gjInverse (true)` throws, `gjInverse ()` returns the identity -/
-theorem gj_herr (a : M44 α) : gjTs a ≠ 0 → gj a = M44.one α := by
-  unfold gjTs gj
-  rcases gjExc_cases a with ⟨_, he, h1⟩ | ⟨_, he⟩
-  · intro _; rw [h1]; rfl
-  · rw [he]; simp
-
-/-- C07's hypothesis `hF` (`M44_inverse_copies`), now a lemma: `gjInverse (false)` is `gjInverse ()` -/
-theorem gjF_eq (a : M44 α) : gjF a = gj a := by
-  unfold gjF gj
-  rcases gjExc_cases a with ⟨_, he, h1⟩ | ⟨_, he⟩
-  · rw [he, h1]
-  · rw [he]
 
 /-- non-vacuity: both outcomes of the instantiated pair occur (the model evaluated on concrete rational matrices) -/
 example : gjTs (⟨0, 1, 0, 0, 2, 0, 0, 0, 0, 0, 4, 0, 0, 0, 0, 1⟩ : M44 ℚ) = 0 ∧
